@@ -1,0 +1,7 @@
+//go:build !verif
+
+package collection
+
+// verifYield marks a scheduling point for the verification harness.  Without the
+// "verif" build tag it does nothing and is inlined away.
+func verifYield(kind int, queue any) {}
